@@ -153,7 +153,10 @@ class C07(Check):
             "really signed under an in-file pseudo-root of that name, alone and beside a genuine chain), "
             "near-misses of the root word, names differing only in case; (l) genuine chains whose derived "
             "values have a leading zero byte (key coordinates, binding hashes, message digests, signature "
-            "r and s; found by search). Every reported quote is read through attributes, to_dict, repr and get_raw_data in "
+            "r and s; found by search); (m) correctly signed quotes / report bodies with the binding hash at "
+            "every offset 1..32 of report data, split, after another hash, reversed, and at offset 0 with "
+            "other tails; (n) every binary field followed / preceded by bytes that belong to nothing. "
+            "Every reported quote is read through attributes, to_dict, repr and get_raw_data in "
             "several orders (on one object and on fresh ones) and each reading compared, value and type, "
             "with an independent unsigned little-endian parse of the signed bytes. "
             "An execution is distinct by (part, corrupted element and field, verdict, failing element).")
@@ -362,6 +365,9 @@ class C07(Check):
         for part in range(4):
             cs.append({"kind": "reserved", "part": part})
         cs.append({"kind": "zeros"})
+        for part in range(4):
+            cs.append({"kind": "binding", "part": part})
+        cs.append({"kind": "extra"})
         for b in range(5):
             cs.append({"kind": "ints", "boundary": b})
         for d in (1, 2, 3):
@@ -629,6 +635,31 @@ class C07(Check):
             if e["type"] == "x509_pem":
                 self.evaluate(doc, G.pem_of(base64.b64decode(e["message"])), G.T0, "root:is-an-element",
                               stats, vs)
+
+    # ---- (m) the binding hash anywhere but at the start of report data -------------------------------
+    def run_binding(self, case, stats, vs):
+        _, root_pem, _ = self.chain(2, "wide-top")
+        for label, d in G.displaced_binding_docs(self.world)[case["part"]::4]:
+            if label.startswith("genuine"):
+                self.genuine(d, root_pem, G.T0, label, stats, vs)
+            else:
+                self.evaluate(d, root_pem, G.T0, label, stats, vs)
+
+    # ---- (n) binary fields followed / preceded by bytes that belong to nothing ---------------------
+    def run_extra(self, case, stats, vs):
+        doc, root_pem, _ = self.chain(2, "wide-top")
+        for e in doc["elements"]:
+            for fld in ("message", "custom_data", "key", "auth_data", "signature"):
+                if fld not in e:
+                    continue
+                x509 = e["type"] == "x509_pem"
+                raw = base64.b64decode(e[fld]) if x509 else bytes.fromhex(e[fld])
+                for lab, nb in G.extra_bytes_variants(raw):
+                    d = G.clone(doc)
+                    G.element_of(d, e["name"])[fld] = base64.b64encode(nb).decode() if x509 else nb.hex()
+                    # bytes after a certificate are unsigned bytes of it: the statement leaves them open
+                    self.evaluate(d, root_pem, G.T0, "extra-bytes:%s:%s" % (e["type"], fld), stats, vs,
+                                  open_=x509 and lab.startswith("+"))
 
     # ---- (l) derived values with leading zero bytes -----------------------------------------------
     def run_zeros(self, case, stats, vs):
